@@ -324,10 +324,19 @@ func c02Run(c *fw.C, caseID string) {
 				if m == nil {
 					continue
 				}
-				_, err := P.Submit(&nom.AccountBlock{BlockType: nom.BlockTypeUserReceive, Address: g.User8.Address, FromBlockHash: hs[0], MomentumAcknowledged: m.Identifier()}, g.User8)
+				first, err := P.Submit(&nom.AccountBlock{BlockType: nom.BlockTypeUserReceive, Address: g.User8.Address, FromBlockHash: hs[0], MomentumAcknowledged: m.Identifier()}, g.User8)
 				c.SetAdd("plasma_edge_receive_outcomes", fmt.Sprintf("ack_depth=%d accepted=%v", d, err == nil))
 				if err == nil {
 					hs = hs[1:]
+				}
+				if err == nil && first.Height == 1 {
+					// the very first block of the account gets a sibling too (same send received with twice the plasma):
+					// followers of one schedule hear it before the momentum that confirms its twin
+					if tx, gerr := P.Generate(&nom.AccountBlock{BlockType: nom.BlockTypeUserReceive, Address: g.User8.Address, FromBlockHash: first.FromBlockHash, Height: 1,
+						MomentumAcknowledged: first.MomentumAcknowledged, FusedPlasma: first.FusedPlasma * 2}, g.User8); gerr == nil && tx != nil && tx.Block.Hash != first.Hash {
+						c02Siblings = append(c02Siblings, c02Gossip{block: tx.Block, atHeight: P.Height()})
+						c.Count("competing_siblings_created_for_the_first_block_of_an_account", 1)
+					}
 				}
 			}
 		}
